@@ -96,7 +96,7 @@ class Oracle:
             if letter(d) in [letter(e) for e in y]:
                 return ("err",)
             return put(a[0], [d] + list(y))
-        if op == "subset":
+        if op in ("subset", "subsetiter"):
             x = S.get(a[1])
             if x is None:
                 return None
